@@ -132,6 +132,9 @@ func (d *detAnalyzer) sortOf(st ast.Stmt, obj types.Object) (spec *sortSpec, isS
 			return nil, false, ""
 		}
 		fn := d.funcOf(call.Args[1])
+		if fn == nil {
+			fn = d.funcArgSSA(call, 1)
+		}
 		if fn == nil || len(fn.Params) != 2 {
 			return nil, true, "the comparison function cannot be resolved"
 		}
@@ -141,6 +144,9 @@ func (d *detAnalyzer) sortOf(st ast.Stmt, obj types.Object) (spec *sortSpec, isS
 			return nil, false, ""
 		}
 		fn := d.funcOf(call.Args[1])
+		if fn == nil {
+			fn = d.funcArgSSA(call, 1)
+		}
 		if fn == nil || len(fn.Params) != 2 || fn.Signature.Results().Len() != 1 {
 			return nil, true, "the comparison function cannot be resolved"
 		}
